@@ -43,7 +43,7 @@ def _variants(prop, renamed_mutants=False):
                     out.append(("mutant", dict(m, name=m["name"] + " [on the alpha-renamed package]", rename=True)))
     # every driver must give the clean verdict on the alpha-renamed package, and still see every mutant there
     out.append(("twin", dict(name="alpha-renamed locals (whole package)", rename=True, edits=[])))
-    for kind in ("flip", "invert", "kwargs", "aug"):
+    for kind in ("flip", "invert", "kwargs", "aug", "noise", "annot"):
         out.append(("twin", dict(name=f"shape edit `{kind}` (whole package)", reshape=kind, edits=[])))
     if renamed_mutants:
         for m in getattr(mod, "MUTANTS", []):
